@@ -29,11 +29,14 @@ Step(e) ==
     [] e.ev = "Recv" ->
          /\ clientText' = CASE e.kind \in {"open", "change"} -> [clientText EXCEPT ![e.url] = e.text]
                             [] e.kind \in {"close", "delete"} -> [clientText EXCEPT ![e.url] = "none"]
+                            \* every document that lives in the deleted directory (all but the untitled one, url 2)
+                            [] e.kind \in {"deletedir", "deletedir/"} -> [u \in Urls |-> IF u = 2 THEN clientText[u] ELSE "none"]
                             [] OTHER -> clientText
          /\ clientCfg' = IF e.kind \in {"config", "silentcfg"} THEN e.cfg ELSE clientCfg
          \* settings changed without a notification: nothing is promised until the change is announced
          /\ announced' = (IF e.kind = "silentcfg" THEN FALSE ELSE IF e.kind = "config" THEN TRUE ELSE announced)
-         /\ tainted' = IF e.kind \in {"open", "change", "close", "delete"} THEN tainted \ {e.url} ELSE tainted
+         /\ tainted' = IF e.kind \in {"open", "change", "close", "delete"} THEN tainted \ {e.url}
+                       ELSE IF e.kind \in {"deletedir", "deletedir/"} THEN tainted \ (Urls \ {2}) ELSE tainted
          /\ UNCHANGED published
     [] e.ev = "Sched" -> UNCHANGED <<clientText, clientCfg, published, tainted, announced>>
     [] e.ev = "Pub" -> /\ published' = IF e.url \in Urls THEN [published EXCEPT ![e.url] = Elems(e.ids)] ELSE published
